@@ -974,3 +974,13 @@ V("c02-twin-blockwise-slice-broadcast-test-via-alias", "C02", "-", "dask_array/_
   "                        if arg.shape[axis] == 1 and self.shape[out_pos] != 1 and idx != slice(None):\n", "                        arg_len = arg.shape[axis]\n                        if arg_len == 1 and self.shape[out_pos] != 1 and idx != slice(None):\n", twin=True)
 V("c02-blockwise-shuffle-shuffles-broadcast-axis", "C02", "R02.9", "dask_array/_blockwise.py",
   "                if arr.shape[input_axis] == 1 and self.shape[axis] != 1:\n", "                if False:\n", expect="Blockwise._accept_shuffle")
+
+# -- R04.10: the key grid is defined once ---------------------------------------------------------------------------
+V("c04-vindex-flat-key-list-again", "C04", "R04.10", "dask_array/slicing/_vindex.py",
+  "        return dsk\n", "        return dsk\n\n    def __dask_keys__(self):\n        return [(self._name,) + idx for idx in np.ndindex(tuple(len(c) for c in self.chunks))]\n", expect="VIndexArray")
+V("c04-concatenate-keys-by-assignment", "C04", "R04.10", "dask_array/stacking/_stack.py",
+  "    def _layer(self) -> dict:\n        graph = self._graph_if_unlowered()", "    __dask_keys__ = lambda self: [(self._name, 0)]\n\n    def _layer(self) -> dict:\n        graph = self._graph_if_unlowered()", expect="Stack")
+V("c04-base-keys-not-from-cached-grid", "C04", "R04.10", "dask_array/_expr.py",
+  "        key_refs = self._cached_keys\n\n        def unwrap(task):", "        key_refs = List(*[TaskRef((self._name,) + i) for i in np.ndindex(self.numblocks)])\n\n        def unwrap(task):", expect="ArrayExpr.__dask_keys__")
+V("c04-twin-finalizer-keys-unchanged-spelling", "C04", "-", "dask_array/_expr.py",
+  "    def __dask_keys__(self):\n        return [self._name]\n", "    def __dask_keys__(self):\n        name = self._name\n        return [name]\n", twin=True)
